@@ -44,7 +44,12 @@ OtherLines  == <<[kind |-> "comment", raw |-> "; a comment = 1"],
                  [kind |-> "comment", raw |-> "   "],
                  [kind |-> "classes", items |-> <<"win", "unix">>, raw |-> "classes = win,unix"],
                  [kind |-> "ua_os", items |-> <<[k |-> "Linux", v |-> <<>>, br |-> FALSE], [k |-> "Windows", v |-> <<"NT">>, br |-> FALSE]>>, raw |-> "ua_os = Linux,Windows=NT"],
-                 [kind |-> "sys", raw |-> "sys   = Linux"]>>
+                 [kind |-> "sys", raw |-> "sys   = Linux"],
+                 \* rule lines that cannot be read to their end (empty element, unclosed bracket, unbracketed value with a blank, trailing comma)
+                 [kind |-> "malformed", raw |-> "ua_os = Linux,,Windows,iOS=[iPad]"],
+                 [kind |-> "malformed", raw |-> "ua_os = Linux,Windows=[NT 6.1"],
+                 [kind |-> "malformed", raw |-> "ua_os = Mac=OS X,FreeBSD"],
+                 [kind |-> "malformed", raw |-> "ua_os = Linux,Windows,"]>>
 
 \* a `bad` sig that is syntactically a number is valid in [mtu] only if it fits u16; keep "bad" lines out of sections
 \* where some reading could accept them
